@@ -11,9 +11,13 @@ is decoded to one letter by `event_for`; letters are
 PROGRAMS = {}
 
 
-def prog(name, src, letters, prefix=(0,)):
-    """prefix: indices of the letters that bring the program to its interesting state; harnesses run them natively before the symbolic history."""
-    PROGRAMS[name] = {"src": src.lstrip("\n"), "letters": letters, "prefix": list(prefix)}
+def prog(name, src, letters, prefix=(0,), **meta):
+    """prefix: indices of the letters that bring the program to its interesting state; harnesses run them natively before the symbolic history.
+    meta (used by C06's behavioural oracle):
+      activations: {(flow_id, ((param, value), ...)): [activator flow ids]}
+      react: [(event name, {param: value}, reply name, [flows of which one must be running before the step])]
+      once: [event names that may be emitted at most once over prefix + history]"""
+    PROGRAMS[name] = dict({"src": src.lstrip("\n"), "letters": letters, "prefix": list(prefix)}, **meta)
 
 
 E = lambda n, **kw: ("ev", n, kw)  # noqa: E731
@@ -116,7 +120,8 @@ flow main
   match Ab()
   send StopFlow(flow_id="holder")
   match Never()
-""", [E("Go"), E("Ping"), E("Fin"), E("Ab"), E("Other")])
+""", [E("Go"), E("Ping"), E("Fin"), E("Ab"), E("Other")],
+     activations={("act", ()): ["holder"]}, react=[("Ping", {}, "Pong", ["holder"])])
 
 # activate: flow that finishes immediately (runs once, stays activated) and one that fails immediately
 prog("activate_immediate", """
@@ -133,7 +138,8 @@ flow main
   match Ping()
   send Alive()
   match Never()
-""", [E("Go"), E("Fin"), E("Ping"), E("Other")])
+""", [E("Go"), E("Fin"), E("Ping"), E("Other")],
+     activations={("quick", ()): ["holder"]}, once=["Quick"])
 
 # two activators with equal / different parameters
 prog("activate_two_parents", """
@@ -155,7 +161,9 @@ flow main
   start h1
   start h2
   match Never()
-""", [E("Go"), E("Ping", v=1), E("Ping", v=2), E("Fin1"), E("Fin2")])
+""", [E("Go"), E("Ping", v=1), E("Ping", v=2), E("Fin1"), E("Fin2")],
+     activations={("act", (("p", 1),)): ["h1", "h2"], ("act", (("p", 2),)): ["h2"]},
+     react=[("Ping", {"v": 1}, "Pong", ["h1", "h2"]), ("Ping", {"v": 2}, "Pong", ["h2"]), ("Ping", {"v": 3}, "Pong", [])])
 
 # grand children + match group with and/or
 prog("grandchildren", """
@@ -178,6 +186,25 @@ flow main
   start top
   match Never()
 """, [E("Go"), E("L1"), E("L2"), E("L3"), E("Fin"), ("finished", 0)])
+
+# two flows start an identical action in the same step (shared action): stopped only when the last sharer ends
+prog("shared_action", """
+flow s1
+  match Trig()
+  start UtteranceBotAction(script="same") as $a
+  match E1()
+
+flow s2
+  match Trig()
+  start UtteranceBotAction(script="same") as $a
+  match E2()
+
+flow main
+  match Go()
+  start s1
+  start s2
+  match Never()
+""", [E("Go"), E("Trig"), E("E1"), E("E2"), ("started", 0), ("finished", 0)])
 
 # payloads + competing flows in one loop (conflict resolution inside)
 prog("conflict", """
